@@ -149,6 +149,11 @@ inline void GenZoo(Source& s, Lane l, Zoo& z, const ZooGenCfg& g)
 	n = ZLen(s, l, g);
 	for (uint32_t i = 0; i < n; ++i) { Inner in; in.a = ZInt(s, l); in.b = ZStr(s, l, g); z.vobj.push_back(in); }
 	n = ZLen(s, l, g); for (uint32_t i = 0; i < n; ++i) z.bin.push_back(static_cast<unsigned char>(s.draw(l, 256)));
+	auto genInner = [&](Inner& in) { in.a = ZInt(s, l); in.b = ZStr(s, l, g); };
+	n = ZLen(s, l, g); for (uint32_t i = 0; i < n; ++i) { if (s.chance(l, 1, 4)) z.voObj.emplace_back(std::nullopt); else { Inner in; genInner(in); z.voObj.emplace_back(in); } }
+	n = ZLen(s, l, g); for (uint32_t i = 0; i < n; ++i) { if (s.chance(l, 1, 4)) z.vuObj.emplace_back(nullptr); else { auto p = std::make_unique<Inner>(); genInner(*p); z.vuObj.push_back(std::move(p)); } }
+	n = ZLen(s, l, g); for (uint32_t i = 0; i < n; ++i) { if (s.chance(l, 1, 4)) z.vsObj.emplace_back(nullptr); else { auto p = std::make_shared<Inner>(); genInner(*p); z.vsObj.push_back(std::move(p)); } }
+	n = ZLen(s, l, g); for (uint32_t i = 0; i < n; ++i) z.vtup.emplace_back(ZInt(s, l), ZStr(s, l, g));
 	n = ZLen(s, l, g);
 	for (uint32_t i = 0; i < n; ++i)
 	{
@@ -172,6 +177,17 @@ inline void GenZoo(Source& s, Lane l, Zoo& z, const ZooGenCfg& g)
 		for (auto x : z.mset) { z.msetAlt.emplace_back(x); if (s.chance(l, 1, 3)) z.msetAlt.emplace_back(std::nullopt); }
 		// objects inside a sequence container whose document lacks a member (elements are not fields: a reused element must not keep it)
 		for (auto& in : z.vobj) in.omitB = s.chance(l, 1, 2);
+		for (auto& o : z.voObj) if (o) o->omitB = s.chance(l, 1, 2);
+		for (auto& p : z.vuObj) if (p) p->omitB = s.chance(l, 1, 2);
+		for (auto& p : z.vsObj) if (p) p->omitB = s.chance(l, 1, 2);
+		for (auto& t : z.vtup)
+		{
+			std::optional<int32_t> a = std::get<0>(t);
+			std::optional<std::string> b = std::get<1>(t);
+			const uint32_t w = s.draw(l, 4);
+			if (w == 1) a.reset(); else if (w == 2) b.reset();
+			z.vtupAlt.emplace_back(a, b);
+		}
 		if (z.msetAlt.empty() || s.chance(l, 1, 3)) z.msetAlt.emplace_back(std::nullopt);
 	}
 	if (g.jumboMember >= 0 && g.archive != A_CSV && s.chance(l, 1, g.jumboOneIn)) MakeJumbo(s, l, z, g.jumboMember);
@@ -271,6 +287,11 @@ inline std::map<std::string, std::string> ZooFields(const Zoo& z, bool csv)
 	{ std::string r = "["; for (auto& o : z.vo) r += (o ? std::to_string(*o) : std::string("null")) + ","; f["vo"] = r + "]"; }
 	{ std::string r = "["; for (auto& o : z.vobj) r += std::to_string(o.a) + "/" + HexStr(o.b) + ","; f["vobj"] = r + "]"; }
 	{ std::string r; HexAppend(r, z.bin.data(), z.bin.size()); f["bin"] = r; }
+	auto innerRepr = [](const Inner* in) { return in ? std::to_string(in->a) + "/" + HexStr(in->b) : std::string("null"); };
+	{ std::string r = "["; for (auto& o : z.voObj) r += innerRepr(o ? &*o : nullptr) + ","; f["voObj"] = r + "]"; }
+	{ std::string r = "["; for (auto& o : z.vuObj) r += innerRepr(o.get()) + ","; f["vuObj"] = r + "]"; }
+	{ std::string r = "["; for (auto& o : z.vsObj) r += innerRepr(o.get()) + ","; f["vsObj"] = r + "]"; }
+	{ std::string r = "["; for (auto& t : z.vtup) r += std::to_string(std::get<0>(t)) + "/" + HexStr(std::get<1>(t)) + ","; f["vtup"] = r + "]"; }
 	return f;
 }
 
@@ -316,7 +337,7 @@ inline CallResult LoadZooWith(ArchiveOps& ops, Zoo& z, const std::string& bytes,
 		sb.SetSeekBeyondFails(c.seekBeyondFails);
 		std::istream is(&sb);
 		try { PaddedInput::Position(is, c); } catch (...) {}
-		if (throwMode) is.exceptions(std::ios::badbit);
+		try { is.exceptions(ExceptionMask(c, throwMode)); } catch (...) {}
 		r = Guarded([&] { FailWindow fw; ops.LoadZoo(z, o, IoIn{ nullptr, &is }); });
 		if (info) { info->faultFired = sb.FaultFired(); info->reachedEof = sb.ReachedEof(); info->streamBad = is.bad(); info->streamFail = is.fail(); }
 	}
